@@ -19,7 +19,7 @@ def uniq(l):
 ALLV=pm(2,2,2,2)
 q=[(0,0,0,1,0),(0,0,0,7,0),(1,0,0,20,0),(2,0,0,8,0),(3,0,0,6,0),(7,2,0,3,0),(4,0,0,2,0),
    (0,1,0,7,0),(0,3,0,4,0),(0,4,0,5,0),(3,1,0,6,0),(1,3,0,9,0),
-   (0,2,pm(1),2,0),(0,0,pm(3),2,2),(0,1,pm(0,0,0,2),6,0),(0,1,pm(0,0,2,1),3,0),(0,1,pm(0,0,1),4,0),(2,3,pm(2,2),2,0)]
+   (0,2,pm(1),2,0),(0,0,pm(3),2,2),(0,1,pm(2,0,0,3),5,1),(0,3,pm(2,2,0,3),4,2),(0,1,pm(0,0,0,2),6,0),(0,1,pm(0,0,2,1),3,0),(0,1,pm(0,0,1),4,0),(2,3,pm(2,2),2,0)]
 heavy=[(0,0,pm(1,1),1,0),(0,2,pm(1),4,0),(0,1,pm(0,0,2,1),5,0),(0,0,pm(1,1),3,0),(0,1,pm(0,2,2,2),4,0),(2,3,pm(2,2),3,0)]
 t=list(q)+heavy
 for d in range(4):
@@ -33,8 +33,11 @@ for d,nd in ((0,4),(1,6),(2,4),(3,3)):
         for p in (pm(1),pm(2),pm(3),pm(1,1),pm(1,2),pm(2,2),pm(0,1),pm(0,0,1),pm(0,0,2),pm(0,0,0,1),pm(0,0,0,2),pm(0,0,2,2),pm(1,0,0,1),pm(1,1,1,1),pm(3,2,2,2),pm(2,0,0,2)):
             t.append((d,m,p,nd,1 if p%4==3 else 0))
 t.append((0,3,ALLV,5,0)); t.append((0,1,ALLV,7,0))
+for d,nd in ((0,6),(1,7),(3,4)):
+    for p in (pm(0,0,0,3),pm(2,0,0,3),pm(2,2,2,3),pm(3,0,0,3),pm(0,2,0,3)):
+        for ex in (0,1,2): t.append((d,1,p,nd,ex))
 ob("int","VerifC15Int",uniq(q),uniq(t),
- "Real control.process on \"~<params><mods><D|B|O|X>\" built from the case parameters (dir: D B O X and lower case; mods: none, :, @, :@, @:; pm: each of mincol/padchar/commachar/commaint omitted, literal, by v, mincol also by #; nd: digit count in the directive's base; extra trailing arguments). Symbolic: the integer (any magnitude with nd digits, base 10 nd<=7 i.e. |x|<10^7, base 2 nd<=24, base 8 nd<=8, base 16 nd<=6; sign symbolic), mincol 0..12 (literal: symbolic digit bytes in the control string; v: case split to a concrete fixnum because getIntParam converts through float64, which the engine keeps concrete), commaint 1..12 (case split in both modes: slip divides by it), padchar/commachar symbolic printable ASCII bytes (literal 'c in the control string or a Character by v). Oracle zzC15RefInt: CLHS 22.3.2.2 over the oracle's own positional digits ((m/base^k)%base), '-' / '+' with @, commachar every commaint digits from the right with :, left padding with padchar to mincol; lower-case digits above 9 (CLHS does not fix their case; slip's choice). Also asserted: no Go fault, no condition, exactly the v arguments + 1 consumed. Engine model (core engine, fmtint.go): strconv.AppendInt on a symbolic integer forks on sign and digit count and yields (x/base^k)%base digit terms.",
+ "Real control.process on \"~<params><mods><D|B|O|X>\" built from the case parameters (dir: D B O X and lower case; mods: none, :, @, :@, @:; pm: each of mincol/padchar/commachar/commaint omitted, literal, by v, mincol also by #, commaint also by # (read after the v parameters of the same directive took their arguments); nd: digit count in the directive's base; extra trailing arguments). Symbolic: the integer (any magnitude with nd digits, base 10 nd<=7 i.e. |x|<10^7, base 2 nd<=24, base 8 nd<=8, base 16 nd<=6; sign symbolic), mincol 0..12 (literal: symbolic digit bytes in the control string; v: case split to a concrete fixnum because getIntParam converts through float64, which the engine keeps concrete), commaint 1..12 (case split in both modes: slip divides by it), padchar/commachar symbolic printable ASCII bytes (literal 'c in the control string or a Character by v). Oracle zzC15RefInt: CLHS 22.3.2.2 over the oracle's own positional digits ((m/base^k)%base), '-' / '+' with @, commachar every commaint digits from the right with :, left padding with padchar to mincol; lower-case digits above 9 (CLHS does not fix their case; slip's choice). Also asserted: no Go fault, no condition, exactly the v arguments + 1 consumed. Engine model (core engine, fmtint.go): strconv.AppendInt on a symbolic integer forks on sign and digit count and yields (x/base^k)%base digit terms.",
  carves=["C15-quoted-dirchar-param"])
 
 # ---- intother ----
@@ -141,8 +144,8 @@ ob("char","VerifC15Char",q,t,
  "<~C> <~:C> <~@C> <~:@C> of a symbolic graphic ASCII character 0x21..0x7e and of Space, Newline, Tab, Backspace, Page, Return, Rubout. Oracle CLHS 22.3.1.1: the character; its name when it is not graphic (~:C, ~:@C); #\\ syntax (~@C).")
 
 # ---- as ----
-q=[(0,0,0,0,0),(1,0,0,10,0),(0,2,1,1,2),(1,1,2,3,0),(0,1,0,4,0),(0,3,3,6,0),(1,0,1,6,0),(0,0,1,7,0),(1,2,2,9,0),(0,0,0,5,0),(0,0,0,8,0),(1,1,0,4,0),(0,0,0,1,3)]
-t=list(q)
+q=[(0,0,0,0,0),(1,0,0,10,0),(0,2,1,1,2),(1,1,2,3,0),(0,1,0,4,0),(0,3,3,6,0),(1,0,1,6,0),(0,0,1,7,0),(1,2,2,9,0),(0,0,0,5,0),(0,0,0,8,0),(1,1,0,4,0),(0,0,0,1,3),(0,0,4,3,0),(1,2,4,0,0),(0,0,5,3,0),(0,2,6,0,0)]
+t=list(q)+[(d,m,p,k,0) for d in (0,1) for m in (0,2) for p in (4,5,6) for k in (0,3,6,8)]
 for d in (0,1):
     for m in range(4):
         for p in range(4):
@@ -152,7 +155,7 @@ for d in (0,1):
                 if p in (2,3) and m in (1,2): continue
                 t.append((d,m,p,k,n))
 ob("as","VerifC15AS",q,uniq(t),
- "[~mincol,colinc,minpad,padchar<A|S>] with none/:/@/:@, parameters none / mincol literal (symbolic 0..12) / all four by v (mincol 0..12, colinc 1..4, minpad 0..3 case split, padchar symbolic printable) / mincol literal + quoted literal padchar, over the argument pool: symbolic fixnum |x|<1000, string of n symbolic printable bytes (~A only: prin1 of a string calls ojg natively, concrete bytes only), a concrete string with quote and backslash, symbol, keyword, symbolic graphic character, nil, t, empty string, flat and nested lists. Reference text: the real princ / prin1 functions writing to a harness stream (the property says ~A = princ, ~S = prin1); ~:A of nil is (). Padding oracle CLHS 22.3.4.1 (minpad copies, then colinc at a time until >= mincol; right, or left with @). Floats are outside (no float text model).",
+ "[~mincol,colinc,minpad,padchar<A|S>] with none/:/@/:@, parameters none / mincol literal (symbolic 0..12) / all four by v (mincol 0..12, colinc 1..4, minpad 0..3 case split, padchar symbolic printable) / mincol literal + quoted literal padchar / v,v,# (# read after two v parameters took their arguments) / # alone / #,v, over the argument pool: symbolic fixnum |x|<1000, string of n symbolic printable bytes (~A only: prin1 of a string calls ojg natively, concrete bytes only), a concrete string with quote and backslash, symbol, keyword, symbolic graphic character, nil, t, empty string, flat and nested lists. Reference text: the real princ / prin1 functions writing to a harness stream (the property says ~A = princ, ~S = prin1); ~:A of nil is (). Padding oracle CLHS 22.3.4.1 (minpad copies, then colinc at a time until >= mincol; right, or left with @). Floats are outside (no float text model).",
  carves=["C15-quoted-dirchar-param","C15-princ-string"])
 
 # ---- p2s ----
